@@ -12,7 +12,7 @@ TAG = os.environ.get("SEED_TAG", "r2")
 src = "%s/%s/out/%s" % (ROOT, pid, m)
 ENV = dict(os.environ, GOFLAGS="-mod=mod", GOPROXY="off", GOSUMDB="off", GOTOOLCHAIN="local")
 def sh(cmd, cwd):
-    p = subprocess.run(cmd, cwd=cwd, env=ENV, shell=True, capture_output=True, text=True)
+    p = subprocess.run(cmd, cwd=cwd, env=ENV, shell=True, capture_output=True, text=True, errors="replace")
     return p.returncode, (p.stdout + p.stderr)[-1500:]
 root = tempfile.mkdtemp(prefix="verif-seed-", dir="/var/tmp")
 wt = os.path.join(root, "repo")
